@@ -60,6 +60,12 @@ CHECKS = {
              "sources follow their inputs, Ohm's law, agreement of the grids h and h/2, Simpson integral form of C dv/dt and L di/dt, an independent "
              "trapezoidal companion-model reference (Richardson), settling to the exact DC solution.",
         design='5/C12', technique='trace monitors + independent companion-model reference over recorded waveforms'),
+    'C16': dict(
+        text="Runtime oracle on every Network.transformers operation applied to generated well-posed networks salted with opens and shorts (chains, "
+             "stars, parallel shorts, shorts at the reference node): survivors keep id/element, only nameable branches disappear, exempt elements "
+             "survive, the simplified network solved by the library equals the exact solution of the original per surviving node and branch, "
+             "passive_network's port impedance equals the exact deactivated port impedance, inputs are fingerprinted before/after.",
+        design='5/C16', technique='runtime oracle vs exact reference of the original + purity sentinels'),
 }
 
 NOT_YET = "check not built yet in this round (work in progress; see DESIGN.md section 5)"
